@@ -252,6 +252,21 @@ def design(pid, res, tier):
                 with open(os.path.join(wv.SPEC, cfg + ".cfg"), "a") as f:
                     f.write("CHECK_DEADLOCK FALSE\n")
             runs.append((cfg, True))
+    # unbounded input (any number of chunks, data abstracted): control properties for every length
+    if pid in ("C04", "C14"):
+        for T in ((1, 2) if tier == "quick" else (1, 2)):
+            for sp in (False, True):
+                nm = "PLUB_%s_T%d_sp%d_p%d" % (pid, T, sp, os.getpid())
+                g = os.path.join(wv.SPEC, "gen"); os.makedirs(g, exist_ok=True)
+                txt = ("CONSTANTS T = %d  N = 0  S = 32  Dir = \"enc\"  EofPeek = TRUE  Pad = 0\n"
+                       "  Gate = TRUE  NotifyReady = TRUE  NotifyUpdate = TRUE  WaitLoop = TRUE  ReadyTest = TRUE  Spurious = %s  Unbounded = TRUE\n"
+                       "  Loads <- MCLoads  DecPad <- MCDecPad\nSPECIFICATION %s\nINVARIANTS TypeOK LockDiscipline %s\n%s" %
+                       (T, "TRUE" if sp else "FALSE", "UFairSpec" if live else "Spec", "Quiescent" if pid == "C04" else "Exclusive NoUnderflow",
+                        "PROPERTY Termination\n" if live else "CHECK_DEADLOCK FALSE\n"))
+                with open(os.path.join(g, nm + ".cfg"), "w") as f:
+                    f.write(txt)
+                runs.append((os.path.join("gen", nm), True))
+        res.cov["unbounded_input_abstraction"] = "Pipeline.tla with Unbounded = TRUE (any number of chunks of 1..2 blocks, block identities / output / counters abstracted): T in {1,2}, with and without spurious wake-ups - %s for inputs of every length" % ("deadlock freedom, Quiescent and <>Done under fairness (the input ends)" if pid == "C04" else "Exclusive and NoUnderflow")
     negs = {"C14": ["MC_Pipeline_neg_gate", "MC_Pipeline_neg_while"], "C03": ["MC_Pipeline_neg_gate2"],
             "C04": ["MC_Pipeline_neg_eof1", "MC_Pipeline_neg_notifyR", "MC_Pipeline_neg_notifyU", "MC_Pipeline_neg_readytest"]}[pid]
     for ng in negs:
